@@ -194,6 +194,24 @@ module Pos =
   | N0 -> N0
   | Npos p -> Npos (Coq_xO p)
 
+  (** val coq_lor : positive -> positive -> positive **)
+
+  let rec coq_lor p q =
+    match p with
+    | Coq_xI p0 ->
+      (match q with
+       | Coq_xI q0 -> Coq_xI (coq_lor p0 q0)
+       | Coq_xO q0 -> Coq_xI (coq_lor p0 q0)
+       | Coq_xH -> p)
+    | Coq_xO p0 ->
+      (match q with
+       | Coq_xI q0 -> Coq_xI (coq_lor p0 q0)
+       | Coq_xO q0 -> Coq_xO (coq_lor p0 q0)
+       | Coq_xH -> Coq_xI p0)
+    | Coq_xH -> (match q with
+                 | Coq_xO q0 -> Coq_xI q0
+                 | _ -> q)
+
   (** val coq_land : positive -> positive -> coq_N **)
 
   let rec coq_land p q =
